@@ -137,7 +137,8 @@ let run (cases : case list) =
           let (s', cl) = ledger_step !os lop evs (z_of_string (kv_def t "pending" "0")) (z_of_string (kv_def t "disp" "0")) rn re in
           os := s';
           let cl = int_of_nat cl in
-          if cl <> 0 then begin report_oracle ci i (string_of_int cl) op ("obs=[" ^ impl ^ "]"); oracle_live := false end
+          if cl = 99 then oracle_live := false
+          else if cl <> 0 then begin report_oracle ci i (string_of_int cl) op ("obs=[" ^ impl ^ "]"); oracle_live := false end
         end
       end) c.steps) cases
 
